@@ -21,11 +21,11 @@ def wide(c):
     summ, rej, tr = symtrace.record_and_validate(c)
     seen = set()
     for p in sorted(summ["panics"], key=lambda p: len(p["text"])):
-        func, msg = symtrace.panic_key(p)
-        if (func, msg) in seen:
+        func, msg, src = symtrace.panic_key(p)
+        if (func, msg, src) in seen:
             continue
-        seen.add((func, msg))
-        c.report({"kind": "panic_wide", "what": f"semantic analysis panicked on a program that parses without diagnostics: {msg[:120]}", "site": func, "msg": msg, "text": p["text"], "panic": p["panic"]})
+        seen.add((func, msg, src))
+        c.report({"kind": "panic_wide", "what": f"semantic analysis panicked on a program that parses without diagnostics: {msg[:120]} [{src[:100]}]", "site": func, "msg": msg, "src": src, "text": p["text"], "panic": p["panic"]})
     if rej:
         if rej["ev"].get("ev") == "done" or rej["ev"].get("ev") == "exit":
             c.report({"kind": "scope_discipline", "what": "the analysis left a scope open (or exited the global scope): AnalyzerSymTrace rejects the record", "site": "", "msg": json.dumps(rej["ev"]), "text": rej["text"], "state": rej["state"]})
